@@ -41,6 +41,27 @@ def finalize(R, I, hops):
                 reported = True
             elif d:
                 R.inconclusive.append('C02 witness did not reproduce natively: ' + '; '.join(d) + ' scenario=' + R.save_unreproduced(sc, pred, real))
+    # directed chains (always run): the update budget counts in versions, so a hop that jumps 2 000 versions exhausts max_root_updates = 1024;
+    # the walk must then FAIL (MaxUpdatesExceeded), not end quietly on that root while a further root is on offer; and plain chains of 1..3 hops
+    def root_d(v, signers, rk=0):
+        return {'id': v, 'version': v, 'consistent': False, 'table': [0, 1, 2, 3, 4], 'signers': signers,
+                'roles': {'root': {'keys': [rk], 'thr': 1}, 'timestamp': {'keys': [1], 'thr': 1}, 'snapshot': {'keys': [2], 'thr': 1}, 'targets': {'keys': [3], 'thr': 1}}}
+    def cyc_d(serve):
+        return {'shipped': 0, 'serve_roots': serve, 'consistent': False, 'safe': False, 'timestamp': {'id': 10, 'version': 1, 'signers': [1]}, 'snapshot': {'id': 11, 'version': 1, 'signers': [2]},
+                'targets': {'id': 12, 'version': 1, 'signers': [3]}, 'ts_meta': {'version': 1}, 'sn_meta': {'version': 1}}
+    directed = [('a hop from version 1 to 2000 exhausts the budget of 1024 versions while 2001.root.json is on offer', [root_d(1, [0]), root_d(2000, [0]), root_d(2001, [0])], {'2': 1, '2001': 2}),
+                ('plain chain 1 -> 2 -> 3 -> 4, then nothing', [root_d(1, [0]), root_d(2, [0]), root_d(3, [0]), root_d(4, [0])], {'2': 1, '3': 2, '4': 3}),
+                ('chain 1 -> 2 (key rotated 0 -> 4, doubly signed) -> 3 signed by the new key only', [root_d(1, [0]), root_d(2, [0, 4], rk=4), root_d(3, [4], rk=4)], {'2': 1, '3': 2})]
+    for desc, roots, serve in directed:
+        sc = {'nkeys': 6, 'roots': roots, 'cycles': [cyc_d(serve)]}
+        real = R.replay('history', sc); rc = real['cycles'][0]
+        R.differential['scenarios'] += 1
+        exp_root, names = reference_root_walk(sc, sc['cycles'][0])
+        bad = (rc['ok'] and (exp_root is None or rc['versions']['root'] != exp_root['version'])) or (not rc['ok'] and exp_root is not None)
+        if bad and not reported:
+            R.report_violation(f"root walk deviates from the property on a directed chain ({desc}): " + (f"trusted root version {rc['versions']['root']}" if rc['ok'] else f"refused with {rc.get('err')}") + ', reference walk ' +
+                               ('refuses this chain' if exp_root is None else f"ends at version {exp_root['version']}"), sc); reported = True
+        elif not bad: R.differential['agree'] += 1
     # differential scenarios: always run (encoder validation); deviations from the reference are violations
     for desc, sc in differential(R, sums, 1, max_models=(8 if R.tier == 'quick' else 24), label='C02 differential'):
         if not reported:
